@@ -54,7 +54,7 @@ PROPS = {
         "assumptions": ["ints compared with floats stay within |i| <= 2^53 (the property's quantifier); no NaN/Inf; valid UTF-8"],
     },
     "C15": {
-        "domains": [{"name": "set", "n_quick": 3000, "n_thorough": 30000}],
+        "domains": [{"name": "set", "n_quick": 3000, "n_thorough": 30000}, {"name": "hlp", "n_quick": 600, "n_thorough": 15000}],
         "lean_modules": ["SMD.Proofs.SetAlgebra", "SMD.Properties.C15"],
         "theorems": [],
         "assumptions": [],
@@ -77,6 +77,8 @@ for _p in ("C01", "C02", "C03", "C04", "C05", "C06", "C07", "C19"):
         "assumptions": ["identity converter over 1-4 version labels; schemas of the generated family (sgen)"],
     }
 
+for _p in ("C04", "C05"):
+    PROPS[_p]["domains"] = PROPS[_p]["domains"] + [{"name": "hlp", "n_quick": 600, "n_thorough": 15000}]
 PROPS["C19"]["lean_modules"] = ["SMD.Properties.C19", "SMD.Properties.FindingWitnesses"]
 PROPS["C13"]["domains"].append({"name": "sch", "n_quick": 150, "n_thorough": 3000})
 PROPS["C19"]["domains"].append({"name": "flt", "n_quick": 1500, "n_thorough": 30000})
@@ -132,6 +134,10 @@ PROPS["C10"] = {
 OP_PROPS["conc.round"] = ["C10"]
 OP_PROPS["gmap.ops"] = ["C18"]
 OP_PROPS["iso.pair"] = ["C09"]
+OP_PROPS["hlp.sfv"] = ["C15"]
+OP_PROPS["hlp.mfeq"] = ["C05"]
+OP_PROPS["hlp.mfdiff"] = ["C05"]
+OP_PROPS["hlp.cf"] = ["C04"]
 OP_PROPS["rfl.conv"] = ["C18"]
 OP_PROPS["rfl.json"] = ["C18"]
 OP_PROPS["upd.mode"] = ["C20"]
